@@ -653,3 +653,63 @@ func (h *History) Summary() string {
 	}
 	return s
 }
+
+// WidenIDs rewrites the small rule ids of a generated history to values spread over each id's range (the
+// high bit set, the maximum, ...): rule ids are opaque to the UPF, whatever their numerical value.
+func WidenIDs(h *History) {
+	w32 := func(v uint64) uint64 {
+		switch v {
+		case 2:
+			return 0x80000002
+		case 3:
+			return 0xfffffffe
+		case 4:
+			return 0x7fffffff
+		}
+		return v
+	}
+	w16 := func(v uint64) uint64 {
+		switch v {
+		case 2:
+			return 0x8002
+		case 3:
+			return 0xffff
+		}
+		return v
+	}
+	fix := func(rs []Rule) {
+		for i := range rs {
+			r := &rs[i]
+			switch r.Kind {
+			case "PDR":
+				r.ID = w16(r.ID)
+			case "FAR", "QER", "URR":
+				r.ID = w32(r.ID)
+			}
+			for j := range r.URRs {
+				r.URRs[j] = uint32(w32(uint64(r.URRs[j])))
+			}
+			for j := range r.QERs {
+				r.QERs[j] = uint32(w32(uint64(r.QERs[j])))
+			}
+			if r.FAR != 0 {
+				r.FAR = uint32(w32(uint64(r.FAR)))
+			}
+		}
+	}
+	for i := range h.Ops {
+		o := &h.Ops[i]
+		fix(o.Create)
+		fix(o.Update)
+		fix(o.Remove)
+		for j := range o.Query {
+			o.Query[j] = uint32(w32(uint64(o.Query[j])))
+		}
+		for j := range o.URRs {
+			o.URRs[j] = uint32(w32(uint64(o.URRs[j])))
+		}
+		if o.PDR != 0 {
+			o.PDR = uint16(w16(uint64(o.PDR)))
+		}
+	}
+}
